@@ -6,7 +6,7 @@ import unicodedata
 import sr25519
 
 from framework import Func
-from modeldrv import T
+from modeldrv import T, Z
 from bip_utils import (Substrate, SubstrateCoins, SubstratePath, SubstratePathElem, SubstratePathParser,
                        SubstratePathError, SubstrateKeyError)
 from bip_utils.substrate.scale import SubstrateScaleBytesEncoder, SubstrateScaleCUintEncoder
@@ -20,7 +20,9 @@ MANIFEST = {
             "extracted-model/implementation correspondence on junction strings of every magnitude and length class and "
             "direct compositionality / soft-public commutation / SS58 address checks on the Substrate coins.",
     "note": "sr25519 (schnorrkel) and Blake2b are oracles; soft/public commutation is proved from one assumed law of "
-            "the oracle. The SS58 address clause is a direct check only (SS58 belongs to another model).",
+            "the oracle. The SS58 address clause was a direct check only; LINKED: wallet_address_is_ss58_of_derived_key puts it on the "
+            "SS58 model of C11 (link.sub_*_c entries), and this property's SCALE compact / UTF-8 encoders are proved equal to the "
+            "other transcriptions in the tree (C11 Model/Scale.v; Model/MnemText.v, Model/Seeds.v).",
     "technique": "Coq proof + generated-constant obligations + extracted-model differential run + direct property checks",
     "ref": "7/C19",
 }
@@ -462,3 +464,94 @@ def generate(ctx):
         soft = ["/" + e.lstrip("/") for e in path] if rng.random() < 0.7 else path
         ctx.run("sub_soft_public", [ci, seed, soft], "soft-public")
     ctx.note_exhaustive("all %d Substrate coins in the compositionality / SS58 address direct checks" % len(COINS))
+    gen_link(ctx)
+
+
+# ------------------------------------------------------------------ linked models (Extract/Api_link.v)
+# The address clause inside the model: derived public key -> SS58 (Model/SS58.v through Model/LinkSubstrate.v); the
+# theorems wallet_address_is_ss58_of_derived_key / scale_models_agree of Props/C19.v are about these functions.
+
+def impl_sub_address(a):
+    from bip_utils import SubstrateSr25519AddrEncoder
+    return SubstrateSr25519AddrEncoder.EncodeKey(a[1], ss58_format=a[0])
+
+
+def impl_sub_address_decode(a):
+    from bip_utils import SubstrateSr25519AddrDecoder
+    return SubstrateSr25519AddrDecoder.DecodeAddr(a[1], ss58_format=a[0])
+
+
+def direct_sub_address(a):
+    fmt, pk = a
+    try:
+        s = impl_sub_address(a)
+    except Exception:  # noqa
+        return None
+    if s != ref_ss58(pk, fmt):
+        return "address %s is not the SS58 encoding %s" % (s, ref_ss58(pk, fmt))
+    d = impl_sub_address_decode([fmt, s])
+    return None if d == pk else "address decodes to %s" % d.hex()
+
+
+def impl_sub_wallet_address(a):
+    ci, sk, pk, s = a
+    coin = COINS[ci]
+    k = Substrate.FromPrivateKey(sk[0], coin) if sk else Substrate.FromPublicKey(pk, coin)
+    return k.DerivePath(s).PublicKey().ToAddress()
+
+
+FUNCS["sub_address_c"] = Func(model=lambda m, a: m.call("link.sub_address_c", a[0], a[1]), impl=impl_sub_address,
+                              direct=direct_sub_address)
+FUNCS["sub_address_decode_c"] = Func(model=lambda m, a: m.call("link.sub_address_decode_c", a[0], a[1]),
+                                     impl=impl_sub_address_decode)
+FUNCS["sub_wallet_address_c"] = Func(
+    model=lambda m, a: m.call("link.sub_wallet_address_c", coin_format(COINS[a[0]]), a[1], a[2], a[3]),
+    impl=impl_sub_wallet_address)
+# the two SCALE compact-integer models (C19's and C11's) on the same values, incl. the big-integer mode
+FUNCS["scale_cuint_c11"] = Func(model=lambda m, a: m.call("codecs.scale_compact", Z(a[0])),
+                                impl=lambda a: SubstrateScaleCUintEncoder.Encode(a[0]))
+
+
+def gen_link(ctx):
+    rng = ctx.rng
+    fmts = [0, 1, 2, 42, 63, 64, 65, 127, 128, 255, 256, 1284, 16383] + [coin_format(c) for c in COINS]
+    addrs = []
+    for i in range(ctx.n(90, 1500)):
+        fmt = fmts[i % len(fmts)] if i < 3 * len(fmts) else rng.randrange(16384)
+        pk = bytes(rng.randrange(256) for _ in range(32)) if i % 7 else bytes(rng.randrange(3)) + bytes(rng.randrange(256) for _ in range(30))
+        pk = (pk + bytes(32))[:32]
+        r = ctx.run("sub_address_c", [fmt, pk], "link")
+        if r[1] and r[1][0] == "ok":
+            addrs.append((fmt, r[1][1]))
+    for fmt in (46, 47, 16384, 65536):
+        ctx.run("sub_address_c", [fmt, bytes(32)], "link-bad-format")
+    for n in (0, 31, 33):
+        ctx.run("sub_address_c", [42, bytes(n)], "link-bad-key", trivial=(n == 0))
+    for fmt, s in addrs:
+        ctx.run("sub_address_decode_c", [fmt, s], "link-valid")
+    for _ in range(ctx.n(120, 2000)):
+        fmt, s = rng.choice(addrs)
+        k = rng.randrange(5)
+        t = list(s)
+        if k == 0:
+            t[rng.randrange(len(t))] = rng.choice(B58)
+        elif k == 1:
+            t[rng.randrange(len(t))] = rng.choice("0OIl ")
+        elif k == 2:
+            t = t[:rng.randrange(len(t))]
+        elif k == 3:
+            ctx.run("sub_address_decode_c", [rng.choice(fmts), s], "link-other-format")
+            continue
+        else:
+            t.insert(rng.randrange(len(t) + 1), rng.choice(B58))
+        ctx.run("sub_address_decode_c", [fmt, "".join(t)], "link-mutated")
+    for t in range(ctx.n(40, 600)):
+        ci = t % len(COINS)
+        pk, sk = seed_keys(bytes(rng.randrange(256) for _ in range(32)))
+        pub = rng.random() < 0.3
+        path = "".join(("/" if pub or rng.random() < 0.5 else "//") + rng.choice(["Alice", "0", "1", "stash", "x" * 33, "255", "é"])
+                       for _ in range(rng.choice([0, 1, 2, 3])))
+        ctx.run("sub_wallet_address_c", [ci, [] if pub else [sk], pk, path], "link-wallet")
+    for v in [0, 1, 63, 64, 16383, 16384, 2**30 - 1, 2**30, 2**32, 2**64, 2**536 - 1, 2**536] + \
+            [rng.randrange(2**rng.randrange(1, 540)) for _ in range(ctx.n(40, 600))]:
+        ctx.run("scale_cuint_c11", [v], "link-compact")
